@@ -76,6 +76,13 @@ CHECKS = {
         design_ref="3/C12",
         note="Trusts TLC; reads at quiescent points; queue schedules controlled at one gate per ticket with a settle delay (verdict from the final state only). Hook guard XONSH_XONSH_VERIF=1.",
     ),
+    "C05": dict(
+        category="model_checking",
+        technique="TLA+ spec Chain (the documented truth table as an evaluator: short-circuit over exit codes, raise rule, exemptions, flags) checked by TLC over all configurations; every configuration rendered to xonsh source and executed with scripted aliases (and, for a subset, as real xonsh processes with real children); observed run log / exception / marker / exit status validated against ChainTrace by TLC",
+        text="TLC checks RunsIffReached, NothingAfterRaise, Exempt and FlagOff over every chain configuration of the bounded universe (1-2 leaves exhaustively; 3-4 by sampling in the replay): exit codes x capture forms x decorators x Python-parsable/command-only operand text x output/no output x both raise flags; each configuration is executed on the real parser/runtime and the observed behaviour must be the spec's outcome - exactly the operand-text dimension the existing tests lack.",
+        design_ref="3/C05",
+        note="Trusts TLC and scripted callable aliases; under CMD_RAISE a chain operand defers to the chain (documented intent of the code). Two families of defects are known findings (value truthiness of $()/$[] operands; CMD_RAISE depends on the parse path).",
+    ),
 }
 
 ALL = [f"C{i:02d}" for i in range(1, 21)]
